@@ -28,3 +28,11 @@ def run(tier):
 
 
 replay = oc.generic_replay
+
+
+META = {
+    'technique': 'Python slice semantics written out in TLA+ (PySlice, cross-checked by SliceOK in TLC) over all start/stop/step, replayed on ops.slice and source[...]',
+    'level': 'TLC enumerates every (length, start, stop, step) and every in-range integer index within the bounds, checks the two TLA+ formulations of list slicing against each other, and exports the expected elements; both call forms of the real library must emit exactly those and then complete (errors passed through). Exhaustive for the stated bounds.',
+    'note': 'TLC 1.8; instants are not asserted (a streaming slice with negative bounds must wait for completion)',
+    'ref': 'DESIGN.md 6 C07',
+}
